@@ -190,7 +190,11 @@ def realfiles_suite(ctx):
 
 def suites(ctx):
     common.import_pyrefact()
-    return [formatfiles_suite(ctx), hashseed_suite(ctx), realfiles_suite(ctx)]
+    from props import c05
+
+    # the per-file function must not depend on what the worker formatted before: the purity oracle of C05 (every object
+    # held by a cache is unchanged after each rule call) is the hypothesis under which worker assignment cannot matter
+    return [formatfiles_suite(ctx), hashseed_suite(ctx), realfiles_suite(ctx), c05.purity_suite(ctx)]
 
 
 def match_known(d, known):
